@@ -133,6 +133,11 @@ fn handle(line: &str) -> String {
 			}
 			out.join(" ; ")
 		}
+		// values built through the public API: serialise, parse back, compare, re-serialise ("rt <what> <args...>")
+		"rt" => {
+			let rest: Vec<String> = it.map(|x| x.to_string()).collect();
+			return roundtrip(&String::from_utf8(b).unwrap_or_default(), &rest);
+		}
 		// error code <-> kind, on one code
 		"code" => {
 			let c: i32 = String::from_utf8(b).unwrap().parse().unwrap();
@@ -140,6 +145,139 @@ fn handle(line: &str) -> String {
 			format!("code {} {} {}", c, kind_s(k), k.code())
 		}
 		_ => "?unknown-kind".into(),
+	}
+}
+
+fn id_of(spec: &str) -> Id<'static> {
+	if spec == "null" {
+		Id::Null
+	} else if let Some(n) = spec.strip_prefix('n') {
+		Id::Number(n.parse().unwrap())
+	} else {
+		Id::Str(String::from_utf8(unhex(&spec[1..])).unwrap().into())
+	}
+}
+fn subid_of(spec: &str) -> SubscriptionId<'static> {
+	if let Some(n) = spec.strip_prefix('n') {
+		SubscriptionId::Num(n.parse().unwrap())
+	} else {
+		SubscriptionId::Str(String::from_utf8(unhex(&spec[1..])).unwrap().into())
+	}
+}
+fn raw_of(h: &str) -> Box<RawValue> {
+	RawValue::from_string(String::from_utf8(unhex(h)).unwrap()).unwrap()
+}
+
+/// `what` names the type; `args` are its parts.  Prints `eq=<bool> same=<bool>` (value equal after the round trip,
+/// re-serialisation byte-identical) or `ERR <why>`.
+fn roundtrip(what: &str, args: &[String]) -> String {
+	fn fin(eq: bool, ser: &[u8], reser: &[u8]) -> String {
+		format!("eq={} same={} {}", eq, ser == reser, hex(ser))
+	}
+	match what {
+		"id" => {
+			let v = id_of(&args[0]);
+			let ser = serde_json::to_vec(&v).unwrap();
+			match serde_json::from_slice::<Id>(&ser) {
+				Ok(b) => fin(b == v, &ser, &serde_json::to_vec(&b).unwrap()),
+				Err(_) => format!("ERR parse {}", hex(&ser)),
+			}
+		}
+		"subid" => {
+			let v = subid_of(&args[0]);
+			let ser = serde_json::to_vec(&v).unwrap();
+			match serde_json::from_slice::<SubscriptionId>(&ser) {
+				Ok(b) => fin(b == v, &ser, &serde_json::to_vec(&b).unwrap()),
+				Err(_) => format!("ERR parse {}", hex(&ser)),
+			}
+		}
+		"req" => {
+			let id = id_of(&args[0]);
+			let method = String::from_utf8(unhex(&args[1])).unwrap();
+			let params = if args[2] == "-" { None } else { Some(raw_of(&args[2])) };
+			let v = Request::owned(method.clone(), params.clone(), id.clone());
+			let ser = serde_json::to_vec(&v).unwrap();
+			match serde_json::from_slice::<Request>(&ser) {
+				Ok(b) => {
+					let eq = b.id == id && b.method == method && b.params.as_ref().map(|p| p.get()) == params.as_ref().map(|p| p.get());
+					fin(eq, &ser, &serde_json::to_vec(&b).unwrap())
+				}
+				Err(_) => format!("ERR parse {}", hex(&ser)),
+			}
+		}
+		"notif" => {
+			let method = String::from_utf8(unhex(&args[0])).unwrap();
+			let params = if args[1] == "-" { None } else { Some(raw_of(&args[1])) };
+			let v = Notification::new(method.clone().into(), params.clone());
+			let ser = serde_json::to_vec(&v).unwrap();
+			match serde_json::from_slice::<Notification<Option<Box<RawValue>>>>(&ser) {
+				Ok(b) => {
+					let eq = b.method == method && b.params.as_ref().map(|p| p.get()) == params.as_ref().map(|p| p.get());
+					fin(eq, &ser, &serde_json::to_vec(&b).unwrap())
+				}
+				Err(_) => format!("ERR parse {}", hex(&ser)),
+			}
+		}
+		"resp" => {
+			let id = id_of(&args[0]);
+			let v: Response<Box<RawValue>> = if args[1] == "r" {
+				Response::new(ResponsePayload::success(raw_of(&args[2])), id.clone())
+			} else {
+				let data = if args.len() > 4 && args[4] != "-" { Some(raw_of(&args[4])) } else { None };
+				let code: i32 = args[2].parse().unwrap();
+				let msg = String::from_utf8(unhex(&args[3])).unwrap();
+				Response::new(ResponsePayload::error(ErrorObject::owned(code, msg, data)), id.clone())
+			};
+			let ser = serde_json::to_vec(&v).unwrap();
+			match serde_json::from_slice::<Response<Box<RawValue>>>(&ser) {
+				Ok(b) => {
+					let eq = b.id == id
+						&& b.jsonrpc.is_some()
+						&& match (&b.payload, &v.payload) {
+							(ResponsePayload::Success(x), ResponsePayload::Success(y)) => x.get() == y.get(),
+							(ResponsePayload::Error(x), ResponsePayload::Error(y)) => x == y,
+							_ => false,
+						};
+					fin(eq, &ser, &serde_json::to_vec(&b).unwrap())
+				}
+				Err(_) => format!("ERR parse {}", hex(&ser)),
+			}
+		}
+		"subn" | "sube" => {
+			let sid = subid_of(&args[0]);
+			let method = String::from_utf8(unhex(&args[1])).unwrap();
+			let raw = raw_of(&args[2]);
+			if what == "subn" {
+				let v = SubscriptionResponse::new(
+					method.clone().into(),
+					jsonrpsee_types::response::SubscriptionPayload { subscription: sid.clone(), result: raw.clone() },
+				);
+				let ser = serde_json::to_vec(&v).unwrap();
+				match serde_json::from_slice::<SubscriptionResponse<Box<RawValue>>>(&ser) {
+					Ok(b) => fin(
+						b.method == method && b.params.subscription == sid && b.params.result.get() == raw.get(),
+						&ser,
+						&serde_json::to_vec(&b).unwrap(),
+					),
+					Err(_) => format!("ERR parse {}", hex(&ser)),
+				}
+			} else {
+				let v = SubscriptionError::new(
+					method.clone().into(),
+					jsonrpsee_types::response::SubscriptionPayloadError { subscription: sid.clone(), error: raw.clone() },
+				);
+				let ser = serde_json::to_vec(&v).unwrap();
+				match serde_json::from_slice::<SubscriptionError<Box<RawValue>>>(&ser) {
+					Ok(b) => fin(
+						b.method == method && b.params.subscription == sid && b.params.error.get() == raw.get(),
+						&ser,
+						&serde_json::to_vec(&b).unwrap(),
+					),
+					Err(_) => format!("ERR parse {}", hex(&ser)),
+				}
+			}
+		}
+		_ => "?unknown-rt".into(),
 	}
 }
 
